@@ -961,8 +961,14 @@ func isCoreCountOf(v ssa.Value, of ssa.Value, depth int) bool {
 // gives that core itself, more give a tee over all of them in order - on every path, whatever the cores enable at the
 // time (a branch that enables nothing when the tee is built may be switched on later).
 func c5NewTee(c *Ctx, rule string) {
-	fn := c.Func(CorePath, "NewTee")
-	if !c.Anchor(rule, "zapcore.NewTee", fn != nil && len(fn.Params) == 1) {
+	cKeepsAll(c, rule, c.Func(CorePath, "NewTee"), "zapcore.NewTee", "ret(nop)")
+}
+
+// cKeepsAll: a variadic combinator (NewTee, NewMultiWriteSyncer) hands out, for one argument, that argument itself
+// and, for more, a combination over all of them in order; `empty` is what it returns for none. Paths on which an
+// argument is recognised as a combination itself (a type test on an element succeeds) are left alone.
+func cKeepsAll(c *Ctx, rule string, fn *ssa.Function, anchor, empty string) {
+	if !c.Anchor(rule, anchor, fn != nil && len(fn.Params) == 1) {
 		return
 	}
 	cores := fn.Params[0]
@@ -1004,6 +1010,21 @@ func c5NewTee(c *Ctx, rule string) {
 		seqs, trunc := ConcPaths(fn, ConcCfg{
 			MaxIter:  int(N) + 1,
 			SliceLen: func(p *ssa.Parameter) (int64, bool) { return n, p == cores },
+			Branch: func(cond ssa.Value, taken bool, st *ConcState) string {
+				for k := 0; k < 8; k++ {
+					if nx := st.Step(cond); nx != nil {
+						cond = nx
+						continue
+					}
+					break
+				}
+				if ex, ok := cond.(*ssa.Extract); ok && ex.Index == 1 {
+					if ta, ok := ex.Tuple.(*ssa.TypeAssert); ok && !strings.HasPrefix(elemIndex(st, ta.X), "?") && taken {
+						return "nested"
+					}
+				}
+				return ""
+			},
 			Event: func(in ssa.Instruction, st *ConcState) string {
 				switch x := in.(type) {
 				case *ssa.Store:
@@ -1062,11 +1083,14 @@ func c5NewTee(c *Ctx, rule string) {
 			return
 		}
 		for _, sq := range seqs {
+			if strings.Contains(sq, "nested") {
+				continue
+			}
 			paths++
 			var want []string
 			switch N {
 			case 0:
-				want = []string{"ret(nop)"}
+				want = []string{empty}
 			case 1:
 				want = []string{"ret(core 0)"}
 			}
